@@ -931,6 +931,8 @@ namespace plan
       p.name = "P" + std::to_string(m.preds.size());
       p.super = sup[modn(op.arg(0), sup.size())];
       p.kind = m.preds[p.super].kind;
+      if (p.kind == 0 && modn(op.arg(2), 3) != 0)
+        p.kind = p.second_base_kind = static_cast<int>(modn(op.arg(2), 3)); // temporal through a second base predicate
       p.rparams = m.preds[p.super].rparams;
       p.own_from = p.rparams.size();
       if (modn(op.arg(1), 2))
